@@ -264,6 +264,14 @@ impl<K: RecognizerReadable, V: RecognizerReadable> Decoder for MapOperationDecod
                             };
                         }
                         CLEAR => {
+                            if total_len != TAG_SIZE {
+                                break Err(FrameIoError::BadFrame(InvalidFrame::InvalidHeader {
+                                    problem: Text::from(format!(
+                                        "{}{}",
+                                        BAD_RECORD_SIZE, total_len
+                                    )),
+                                }));
+                            }
                             src.advance(TAG_SIZE + LEN_SIZE);
                             break Ok(Some(MapOperation::Clear));
                         }
